@@ -151,9 +151,27 @@ def analyse(ctx, case, r, want=("oracle", "traced", "static")):
                         n += 1
                         ctx.finding(attrs_of(case, "wrong-exception", "traced"), f"{what_prefix}: traced raises {tr['raise']}", replay_of(case, r, mode))
                 continue
+            # the declared dimensions of the field tensors of one struct-typed output are one shape
+            gout = tr.get("gout") or {}
+            byname = {}
+            for nm, t_ in gout.items():
+                for suf in ("_values", "_null"):
+                    if nm.endswith(suf):
+                        byname.setdefault(nm[: -len(suf)], {})[suf] = t_.get("dims")
+            for nm, fs in byname.items():
+                a_, b_ = fs.get("_values"), fs.get("_null")
+                if len(fs) == 2 and a_ is not None and b_ is not None and (
+                        len(a_) != len(b_) or any(isinstance(p_, int) and isinstance(q_, int) and p_ != q_ for p_, q_ in zip(a_, b_))):
+                    n += 1
+                    ctx.finding(attrs_of(case, "field-dims", "traced"), f"{what_prefix}: the exported fields of `{nm}` declare different dimensions: values {fs['_values']}, null {fs['_null']}", replay_of(case, r, mode))
+                    break
             for ri, run in enumerate(tr.get("runs", [])):
                 kr = ops.outcome_kind(run)
                 expect = ref if not sub.get("feeds") else None
+                if kr != "ok" and "FIELD-SHAPES" in str(run.get("msg", "")):
+                    n += 1
+                    ctx.finding(attrs_of(case, "field-shapes", "traced"), f"{what_prefix}: {run.get('msg', '')[:160]}", replay_of(case, r, mode))
+                    continue
                 if kr != "ok":
                     if expect is not None and "traced" in want:
                         n += 1
